@@ -146,6 +146,16 @@ def _add_anonymous_aliases(structure, type_definition):
                 ir_data_utils.builder(new_alias).abbreviation.CopyFrom(
                     subfield.abbreviation
                 )
+            # The alias is what the enclosing structure writes to text output, so
+            # it has to honor the original field's [text_output] attribute.
+            for attribute in subfield.attribute:
+                if (
+                    attribute.name.text == attributes.TEXT_OUTPUT
+                    and not ir_data_utils.reader(attribute).back_end.text
+                ):
+                    alias_attribute = ir_data_utils.copy(attribute)
+                    _mark_as_synthetic(alias_attribute)
+                    new_alias.attribute.extend([alias_attribute])
             _mark_as_synthetic(new_alias.existence_condition)
             _mark_as_synthetic(new_alias.read_transform)
             new_fields.append(new_alias)
